@@ -18,7 +18,33 @@
 //!
 //! Protocol lines (model command `c04`): `init`, `commit set:<hexkey>:<tok> del:<hexkey>..`,
 //! `process`, `flush`, `enact`, `clean`, `get <hexkey>`, `iter new|seek <hexkey>|first|last|
-//! next|prev`, `tree`, `sep <len> <fill> <addr>`.
+//! next|prev`, `tree`, `xtree`, `reopen`, `sep <len> <fill> <addr>`; `ref:<hexkey>` in commits of rc columns.
+//!
+//! Node-stack cursor on the REAL tree (model command `c04b cursor`, Pdb/Model/BTreePipe.lean): after
+//! every processed commit the dumped real tree (the `t2 tree` line) is loaded into the model
+//! (`c04b cursor load` -> `ok` iff the Lean dump checker accepts it and it holds the keys of the model
+//! tree) and every call on the real iterator is repeated as `c04b cursor new|seek|first|last|next|prev`
+//! on the literal `BTreeIterState` stack cursor over that dump (same commit overlay and record id as
+//! the pipeline model): the keys it yields must be the keys the real iterator returned.
+//!
+//! Reference-counted btree columns (one case in four: `ref_counted + preimage`, model `c04 init rc`):
+//! transactions of Set (count + 1, first value kept) / Dereference (count - 1, removed at 0) /
+//! Reference (count + 1 if present), repeated keys in one transaction (no de-duplication), value =
+//! function of the key.  Oracle: an independent (value, count) map per key; with an empty queue
+//! the iterator / `get` must show exactly the keys with positive count; while commits are queued
+//! (the commit overlay does not mirror dereferences) every key with a positive committed count must
+//! be shown, nothing outside {processed live keys, queued Sets} may be shown, no live key may be
+//! skipped, and the value is the preimage.  The model predicts every answer exactly.  `c04 xtree`
+//! compares the model tree node by node with the dump (the batched model `c04b apply` de-duplicates
+//! and is not used for rc columns).
+//!
+//! Node bytes (model command `c04b node <hexbytes>`, Pdb/Model/BTreeNode.lean, harness/src/c04node.rs):
+//! for every dumped node the raw entry bytes (hook field `NodeDump::encoded`) must equal an independent
+//! re-encoding of the decoded node; a few nodes per dump (and one mutated byte string) are decoded by
+//! the Lean model of `Node::from_encoded` and compared with the crate's decoding.
+//!
+//! Reopen in the middle of a case (1 % of the actions): drain, close, `Db::open`, new iterator
+//! (`c04 reopen`).
 //!
 //! Batched tree update (model command `c04b`, Pdb/Model/BTreeBatch.lean: the literal
 //! `Node::change` loop with several changes per descent): `c04b init`, `c04b apply <ops of
@@ -27,6 +53,9 @@
 //! `(child t child .. child)`): compared EXACTLY, node by node, with the dumped tree of the
 //! implementation after every processed commit; `c04b same` -> `yes` (the batched model tree
 //! is identical to the tree of the one-change-per-descent model).
+#[path = "c04node.rs"]
+mod c04node;
+
 use crate::util::*;
 use parity_db::{BTreeIterator, ColumnOptions, CompressionType, Db, Operation, Options};
 use std::collections::{BTreeMap, BTreeSet, HashSet, VecDeque};
@@ -39,13 +68,77 @@ const ORDER: usize = 8;
 enum Op {
 	Set(Vec<u8>, String),
 	Del(Vec<u8>),
+	Ref(Vec<u8>),
 }
 
 impl Op {
 	fn key(&self) -> &Vec<u8> {
 		match self {
-			Op::Set(k, _) | Op::Del(k) => k,
+			Op::Set(k, _) | Op::Del(k) | Op::Ref(k) => k,
 		}
+	}
+}
+
+/// Independent reference semantics of one operation on a column: plain = last write wins,
+/// rc = (first value, count).
+type Cells = BTreeMap<Vec<u8>, (Vec<u8>, u64)>;
+
+fn apply_cell(cells: &mut Cells, rc: bool, op: &Op, vals: &mut Values) {
+	match op {
+		Op::Set(k, v) => {
+			let b = vals.bytes(v);
+			if rc {
+				match cells.get_mut(k) {
+					Some(c) => c.1 += 1,
+					None => {
+						cells.insert(k.clone(), (b, 1));
+					},
+				}
+			} else {
+				cells.insert(k.clone(), (b, 1));
+			}
+		},
+		Op::Del(k) =>
+			if rc {
+				let gone = match cells.get_mut(k) {
+					Some(c) => {
+						c.1 -= 1;
+						c.1 == 0
+					},
+					None => false,
+				};
+				if gone {
+					cells.remove(k);
+				}
+			} else {
+				cells.remove(k);
+			},
+		Op::Ref(k) =>
+			if rc {
+				if let Some(c) = cells.get_mut(k) {
+					c.1 += 1;
+				}
+			},
+	}
+}
+
+/// rc columns: the value is a function of the key (preimage)
+fn rc_value(k: &[u8], vals: &mut Values) -> String {
+	let h = fnv64(k);
+	let len = match h % 7 {
+		0 => 0,
+		1..=4 => 1 + (h >> 8) % 40,
+		5 => 40 + (h >> 8) % 300,
+		_ => 30 + (h >> 8) % 4,
+	};
+	vals.canon(format!("v{}_{}", len, (h >> 20) & 0xfffffff))
+}
+
+fn key_only(r: &Result<Option<(Vec<u8>, Vec<u8>)>, parity_db::Error>) -> String {
+	match r {
+		Ok(None) => "none".into(),
+		Ok(Some((k, _))) => hex(k),
+		Err(e) => format!("err:{}", err_kind(e)),
 	}
 }
 
@@ -261,6 +354,7 @@ fn ops_line(prefix: &str, ops: &[Op]) -> String {
 		match op {
 			Op::Set(k, v) => line.push_str(&format!(" set:{}:{}", hex(k), v)),
 			Op::Del(k) => line.push_str(&format!(" del:{}", hex(k))),
+			Op::Ref(k) => line.push_str(&format!(" ref:{}", hex(k))),
 		}
 	}
 	line
@@ -359,14 +453,23 @@ fn t2_tree(d: &parity_db::verif::TreeDump) -> Option<String> {
 	Some(s)
 }
 
-fn t2_tree_emit(d: &parity_db::verif::TreeDump, t: &mut Trace, ctr: &mut Counters) {
+/// Emits the `t2 tree` line and loads the same dump into the cursor model (`c04b cursor load`
+/// without arguments = the dump of the last `t2 tree` line). Returns whether the cursor model holds
+/// the current real tree.
+fn t2_tree_emit(d: &parity_db::verif::TreeDump, t: &mut Trace, ctr: &mut Counters) -> bool {
 	match t2_tree(d) {
 		Some(line) => {
 			ctr.inc("t2.tree.lines");
 			ctr.add("t2.bytes", line.len() as u64);
 			t.op(&line, "ok");
+			t.op("c04b cursor load", "ok");
+			ctr.inc("cursor.load");
+			true
 		},
-		None => ctr.inc("t2.skipped.tree_too_big"),
+		None => {
+			ctr.inc("t2.skipped.tree_too_big");
+			false
+		},
 	}
 }
 
@@ -426,12 +529,12 @@ struct Stages {
 	n_enacted: usize,
 }
 
-fn options(dir: &Path, compression: CompressionType, threshold: Option<u32>) -> Options {
+fn options(dir: &Path, compression: CompressionType, threshold: Option<u32>, rc: bool) -> Options {
 	let mut o = Options::with_columns(dir, 1);
 	o.columns[0] = ColumnOptions {
-		preimage: false,
+		preimage: rc,
 		uniform: false,
-		ref_counted: false,
+		ref_counted: rc,
 		compression,
 		btree_index: true,
 		multitree: false,
@@ -496,6 +599,78 @@ pub fn run(
 	fails
 }
 
+/// Tree dump after a processed commit / drain / reopen: oracle checks on the dump, node-by-node
+/// comparison with the model tree, `t2 tree`, cursor model load. Returns (depth, cursor model loaded).
+fn dump_check(
+	db: &Db,
+	c: &mut Case,
+	expected: &BTreeMap<Vec<u8>, Vec<u8>>,
+	rc: bool,
+	what: &str,
+	same: bool,
+) -> (u32, bool) {
+	match parity_db::verif::btree_dump(db, 0) {
+		Ok(d) => {
+			let (line, problems, depth) = check_dump(&d, expected);
+			if rc {
+				// the rc pipeline model prints its own tree node by node
+				c.t.op("c04 xtree", &exact_line(&d));
+				c.ctr.inc("rc.tree_exact");
+			} else {
+				// the batched model must reproduce the implementation's tree node by node
+				c.t.op("c04b tree", &exact_line(&d));
+				if same {
+					c.t.op("c04b same", "yes");
+				}
+				c.ctr.inc("c04b.tree_exact");
+			}
+			for p in problems {
+				c.fail(&format!("TreeInv{}: {}", what, p));
+			}
+			c.t.op("c04 tree", &line);
+			let loaded = t2_tree_emit(&d, c.t, c.ctr);
+			// node byte layout: oracle on every node, `c04b node` lines for a few of them
+			for p in c04node::node_lines(&d, c.t, c.ctr, 2) {
+				c.fail(&format!("NodeBytes{}: {}", what, p));
+			}
+			(depth, loaded)
+		},
+		Err(e) => {
+			c.fail(&format!("tree dump{} failed: {:?}", what, e));
+			(0, false)
+		},
+	}
+}
+
+/// leave no more than the dirty-log limit behind (F7 guard), then close
+fn close_db(db: Db, unread_files: usize) {
+	let _ = db.flush_logs();
+	let mut guard = 0;
+	loop {
+		let _ = db.clean_logs();
+		if db.enact_logs().is_err() {
+			break
+		}
+		guard += 1;
+		if guard > (unread_files + 4) {
+			break
+		}
+	}
+	let _ = db.clean_logs();
+	drop(db);
+}
+
+fn sync_live(live: &mut BTreeMap<Vec<u8>, Vec<u8>>, cells: &Cells, k: &Vec<u8>) {
+	match cells.get(k) {
+		Some((v, _)) => {
+			live.insert(k.clone(), v.clone());
+		},
+		None => {
+			live.remove(k);
+		},
+	}
+}
+
 fn run_case(seed: u64, thorough: bool, root: &Path, t: &mut Trace, ctr: &mut Counters, prop: &str) -> bool {
 	let mut rng = Rng::new(seed);
 	let compression = if rng.chance(1, 2) { CompressionType::Lz4 } else { CompressionType::NoCompression };
@@ -503,6 +678,9 @@ fn run_case(seed: u64, thorough: bool, root: &Path, t: &mut Trace, ctr: &mut Cou
 		0 => Some(16),
 		_ => None,
 	};
+	// reference-counted (+ preimage) btree column: own random stream, so that the other cases
+	// are the cases of the earlier runs
+	let rc = Rng::new(seed ^ 0x5243_3034).chance(1, 4);
 	// one case in eight starts with an ascending fill of a large pool: sorted insertion
 	// leaves half-full nodes, so the tree reaches depth 3 with 400 keys
 	let deep = rng.chance(1, 8);
@@ -524,15 +702,28 @@ fn run_case(seed: u64, thorough: bool, root: &Path, t: &mut Trace, ctr: &mut Cou
 		CompressionType::Lz4 => "lz4",
 		_ => "plain",
 	};
-	t.begin_case(&format!("seed={} btree+{} pool={} actions={}", seed, cname, pool.len(), nact));
+	t.begin_case(&format!(
+		"seed={} btree+{}{} pool={} actions={}",
+		seed,
+		cname,
+		if rc { "+rc" } else { "" },
+		pool.len(),
+		nact
+	));
 	let model_variant = std::env::var("C04_MODEL_VARIANT").unwrap_or_default();
+	let mut init = String::from("c04 init");
 	if model_variant == "unpatched" {
-		t.op("c04 init unpatched", "ok");
-	} else {
-		t.op("c04 init", "ok");
+		init.push_str(" unpatched");
 	}
-	t.op("c04b init", "ok");
+	if rc {
+		init.push_str(" rc");
+	}
+	t.op(&init, "ok");
+	if !rc {
+		t.op("c04b init", "ok");
+	}
 	ctr.inc(&format!("cfg.{}", cname));
+	ctr.inc(if rc { "cfg.rc" } else { "cfg.norc" });
 	ctr.inc(match pool.len() {
 		0..=19 => "pool.5_19",
 		20..=99 => "pool.20_99",
@@ -574,19 +765,29 @@ fn run_case(seed: u64, thorough: bool, root: &Path, t: &mut Trace, ctr: &mut Cou
 	}
 
 	let dir = fresh_dir(root, &format!("c04-{}", seed));
-	let opts = options(&dir, compression, threshold);
+	let opts = options(&dir, compression, threshold, rc);
+	// the oracle's state: cells (value, count) and the live maps derived from them
+	let mut cells_c: Cells = BTreeMap::new(); // all accepted commits
+	let mut cells_p: Cells = BTreeMap::new(); // processed commits
 	let mut committed: BTreeMap<Vec<u8>, Vec<u8>> = BTreeMap::new();
+	let mut processed: BTreeMap<Vec<u8>, Vec<u8>> = BTreeMap::new();
 	let mut last_writer: BTreeMap<Vec<u8>, usize> = BTreeMap::new();
 	let mut n_commits = 0usize;
 	let mut max_depth = 0u32;
 	let mut layers_seen: BTreeSet<&'static str> = BTreeSet::new();
+	let mut reopened_mid = false;
 	{
-		let db = Db::open_or_create(&opts).expect("create");
+		let mut db = Db::open_or_create(&opts).expect("create");
 		let mut st = Stages { queued: 0, logged: 0, flushed: 0, unread_files: 0, dirty: 0, n_processed: 0, n_enacted: 0 };
-		let mut processed: BTreeMap<Vec<u8>, Vec<u8>> = BTreeMap::new();
 		let mut pending: VecDeque<Vec<Op>> = VecDeque::new();
 		let mut it: BTreeIterator = db.iter(0).expect("iter");
 		c.t.op("c04 iter new", "ok");
+		c.t.op("c04b cursor new", "ok");
+		// does the cursor model hold the current real tree? (initially both are empty)
+		let mut cursor_ok = true;
+		// is the cursor model's iterator in the state of the real one? (lost when a call could not be
+		// repeated on it because the dump was too big to be sent; regained at the next seek / new)
+		let mut cursor_synced = true;
 		let mut pos = Pos::Start;
 		let mut last_call = "new";
 		let mut last_since_reset = false;
@@ -598,11 +799,31 @@ fn run_case(seed: u64, thorough: bool, root: &Path, t: &mut Trace, ctr: &mut Cou
 		let mut force_process = 0usize;
 		if deep {
 			for chunk in sorted_pool.chunks(200) {
-				let ops: Vec<Op> =
-					chunk.iter().map(|k| Op::Set(k.clone(), gen_value(&mut rng, &mut vals))).collect();
+				let ops: Vec<Op> = chunk
+					.iter()
+					.map(|k| {
+						let v = if rc { rc_value(k, &mut vals) } else { gen_value(&mut rng, &mut vals) };
+						Op::Set(k.clone(), v)
+					})
+					.collect();
 				forced_ops.push_back(ops);
 			}
 			c.ctr.inc("cases.deep_fill");
+		}
+
+		// one processed commit: oracle state, batched model
+		macro_rules! note_processed {
+			($done:expr) => {{
+				let done: Vec<Op> = $done;
+				if !rc {
+					c.t.op(&ops_line("c04b apply", &done), "ok");
+					c.ctr.inc("c04b.apply");
+				}
+				for op in &done {
+					apply_cell(&mut cells_p, rc, op, &mut vals);
+					sync_live(&mut processed, &cells_p, op.key());
+				}
+			}};
 		}
 
 		for step in 0..nact {
@@ -652,7 +873,8 @@ fn run_case(seed: u64, thorough: bool, root: &Path, t: &mut Trace, ctr: &mut Cou
 						if mode == 2 {
 							ops.push(Op::Del(k.clone()));
 						} else {
-							ops.push(Op::Set(k.clone(), gen_value(&mut rng, &mut vals)));
+							let v = if rc { rc_value(k, &mut vals) } else { gen_value(&mut rng, &mut vals) };
+							ops.push(Op::Set(k.clone(), v));
 						}
 					}
 					if rng.chance(1, 2) {
@@ -665,8 +887,10 @@ fn run_case(seed: u64, thorough: bool, root: &Path, t: &mut Trace, ctr: &mut Cou
 					c.ctr.inc("commit.contiguous");
 				}
 				for _ in 0..(if contiguous { 0 } else { nops }) {
-					let k = if !ops.is_empty() && rng.chance(1, 12) {
-						// the same key twice in one transaction (stable sort, last one wins)
+					let dup_one_in = if rc { 5 } else { 12 };
+					let k = if !ops.is_empty() && rng.chance(1, dup_one_in) {
+						// the same key twice in one transaction (stable sort; without rc the last one
+						// wins, with rc every operation counts)
 						ops[rng.below(ops.len() as u64) as usize].key().clone()
 					} else if mode == 2 && !committed.is_empty() && rng.chance(3, 4) {
 						// delete-heavy: pick a live key
@@ -681,7 +905,12 @@ fn run_case(seed: u64, thorough: bool, root: &Path, t: &mut Trace, ctr: &mut Cou
 						rng.pick(&pool).clone()
 					};
 					if rng.below(100) < set_pct {
-						ops.push(Op::Set(k, gen_value(&mut rng, &mut vals)));
+						if rc && rng.chance(1, 5) {
+							ops.push(Op::Ref(k));
+						} else {
+							let v = if rc { rc_value(&k, &mut vals) } else { gen_value(&mut rng, &mut vals) };
+							ops.push(Op::Set(k, v));
+						}
 					} else {
 						ops.push(Op::Del(k));
 					}
@@ -691,32 +920,41 @@ fn run_case(seed: u64, thorough: bool, root: &Path, t: &mut Trace, ctr: &mut Cou
 					.map(|op| match op {
 						Op::Set(k, v) => (0u8, Operation::Set(k.clone(), vals.bytes(v))),
 						Op::Del(k) => (0u8, Operation::Dereference(k.clone())),
+						Op::Ref(k) => (0u8, Operation::Reference(k.clone())),
 					})
 					.collect();
 				let r = db.commit_changes(tx);
-				let mut line = String::from("c04 commit");
-				for op in &ops {
-					match op {
-						Op::Set(k, v) => line.push_str(&format!(" set:{}:{}", hex(k), v)),
-						Op::Del(k) => line.push_str(&format!(" del:{}", hex(k))),
-					}
-				}
-				c.t.op(&line, &res(&r));
+				c.t.op(&ops_line("c04 commit", &ops), &res(&r));
 				if r.is_err() {
 					c.fail(&format!("commit rejected: {:?}", r.err()));
 					break
 				}
 				for op in &ops {
+					let before = cells_c.get(op.key()).map(|c| c.1).unwrap_or(0);
+					apply_cell(&mut cells_c, rc, op, &mut vals);
+					sync_live(&mut committed, &cells_c, op.key());
+					let after = cells_c.get(op.key()).map(|c| c.1).unwrap_or(0);
 					match op {
-						Op::Set(k, v) => {
-							committed.insert(k.clone(), vals.bytes(v));
+						Op::Set(k, _) => {
 							c.ctr.inc(&format!("key.{}", key_class(k)));
 							c.ctr.inc("op.set");
 						},
-						Op::Del(k) => {
-							committed.remove(k);
-							c.ctr.inc("op.del");
-						},
+						Op::Del(_) => c.ctr.inc("op.del"),
+						Op::Ref(_) => c.ctr.inc("op.ref"),
+					}
+					if rc {
+						if after >= 2 && after > before {
+							c.ctr.inc("rc.count_raised_to_2plus");
+						}
+						if before >= 2 && after < before {
+							c.ctr.inc("rc.count_lowered_kept");
+						}
+						if before == 1 && after == 0 {
+							c.ctr.inc("rc.removed_at_zero");
+						}
+						if before == 0 && after == 0 {
+							c.ctr.inc("rc.op_on_absent");
+						}
 					}
 					last_writer.insert(op.key().clone(), n_commits);
 				}
@@ -739,37 +977,12 @@ fn run_case(seed: u64, thorough: bool, root: &Path, t: &mut Trace, ctr: &mut Cou
 					st.logged += 1;
 					st.n_processed += 1;
 					processed_since_call += 1;
-					let done = pending.pop_front().unwrap();
-					c.t.op(&ops_line("c04b apply", &done), "ok");
-					c.ctr.inc("c04b.apply");
-					for op in done {
-						match op {
-							Op::Set(k, v) => {
-								processed.insert(k, vals.bytes(&v));
-							},
-							Op::Del(k) => {
-								processed.remove(&k);
-							},
-						}
-					}
+					note_processed!(pending.pop_front().unwrap());
 					// T2: dump the tree as seen through the log overlay
-					match parity_db::verif::btree_dump(&db, 0) {
-						Ok(d) => {
-							let (line, problems, depth) = check_dump(&d, &processed);
-							// the batched model must reproduce the implementation's tree node by node
-							c.t.op("c04b tree", &exact_line(&d));
-							c.t.op("c04b same", "yes");
-							c.ctr.inc("c04b.tree_exact");
-							for p in problems {
-								c.fail(&format!("TreeInv: {}", p));
-							}
-							c.t.op("c04 tree", &line);
-							t2_tree_emit(&d, c.t, c.ctr);
-							c.ctr.inc(&format!("tree.depth.{}", depth));
-							max_depth = std::cmp::max(max_depth, depth);
-						},
-						Err(e) => c.fail(&format!("tree dump failed: {:?}", e)),
-					}
+					let (depth, loaded) = dump_check(&db, &mut c, &processed, rc, "", true);
+					cursor_ok = loaded;
+					c.ctr.inc(&format!("tree.depth.{}", depth));
+					max_depth = std::cmp::max(max_depth, depth);
 				}
 			} else if a < 52 {
 				let r = db.flush_logs();
@@ -810,7 +1023,56 @@ fn run_case(seed: u64, thorough: bool, root: &Path, t: &mut Trace, ctr: &mut Cou
 				st.dirty = 0;
 				c.t.op("c04 clean", &res(&r));
 				c.ctr.inc("op.clean");
-			} else if a < 67 {
+			} else if a < 64 {
+				// ---------------------------------------------------------------- reopen
+				drop(it);
+				let mut ok = true;
+				while st.queued > 0 {
+					let r = db.process_commits();
+					if r.is_err() {
+						c.fail(&format!("process_commits (drain before reopen) failed: {:?}", r.err()));
+						ok = false;
+						break
+					}
+					st.queued -= 1;
+					st.n_processed += 1;
+					note_processed!(pending.pop_front().unwrap());
+				}
+				close_db(db, st.unread_files + st.logged + 2);
+				match Db::open(&opts) {
+					Ok(d) => db = d,
+					Err(e) => {
+						c.fail(&format!("reopen in the middle of the case failed: {:?}", e));
+						// keep the borrow checker happy: a fresh handle is needed to go on
+						db = Db::open_or_create(&opts).expect("reopen after failure");
+						ok = false;
+					},
+				}
+				c.t.op("c04 reopen", "ok");
+				c.ctr.inc("op.reopen");
+				reopened_mid = true;
+				st = Stages {
+					queued: 0,
+					logged: 0,
+					flushed: 0,
+					unread_files: 0,
+					dirty: 0,
+					n_processed: st.n_processed,
+					n_enacted: st.n_processed,
+				};
+				let (depth, loaded) = dump_check(&db, &mut c, &processed, rc, " after reopen", true);
+				cursor_ok = loaded;
+				max_depth = std::cmp::max(max_depth, depth);
+				it = db.iter(0).expect("iter");
+				cursor_synced = true; // `c04 reopen` gave the cursor model a new iterator as well
+				pos = Pos::Start;
+				last_since_reset = false;
+				last_call = "new";
+				last_dir = None;
+				if !ok {
+					break
+				}
+			} else if a < 68 {
 				// ---------------------------------------------------------------- point reads
 				for _ in 0..3 {
 					let k = rng.pick(&pool).clone();
@@ -822,8 +1084,29 @@ fn run_case(seed: u64, thorough: bool, root: &Path, t: &mut Trace, ctr: &mut Cou
 					};
 					c.t.op(&format!("c04 get {}", hex(&k)), &obs);
 					c.ctr.inc("op.get");
-					if got.as_ref().ok() != Some(&committed.get(&k).cloned()) {
-						c.fail(&format!("get key={} expected={:?} observed={}", short(&k), committed.get(&k).map(|v| vals.render(v)), obs));
+					let exact = !rc || pending.is_empty();
+					let good = match &got {
+						Err(_) => false,
+						Ok(g) if exact => *g == committed.get(&k).cloned(),
+						Ok(Some(v)) => {
+							// rc column with queued commits: a queued dereference may not be visible yet
+							let upper = committed.contains_key(&k) ||
+								processed.contains_key(&k) ||
+								pending.iter().any(|tx| tx.iter().any(|op| matches!(op, Op::Set(k2, _) if *k2 == k)));
+							let pre = rc_value(&k, &mut vals);
+							upper && *v == vals.bytes(&pre)
+						},
+						Ok(None) => !committed.contains_key(&k),
+					};
+					if !good {
+						c.fail(&format!(
+							"get key={} expected={:?} observed={} (rc={} queued={})",
+							short(&k),
+							committed.get(&k).map(|v| vals.render(v)),
+							obs,
+							rc,
+							pending.len()
+						));
 					}
 				}
 			} else {
@@ -837,6 +1120,8 @@ fn run_case(seed: u64, thorough: bool, root: &Path, t: &mut Trace, ctr: &mut Cou
 						drop(it);
 						it = db.iter(0).expect("iter");
 						c.t.op("c04 iter new", "ok");
+						c.t.op("c04b cursor new", "ok");
+						cursor_synced = true;
 						pos = Pos::Start;
 						last_since_reset = false;
 						last_call = "new";
@@ -857,6 +1142,10 @@ fn run_case(seed: u64, thorough: bool, root: &Path, t: &mut Trace, ctr: &mut Cou
 						};
 						let r = it.seek(&k);
 						c.t.op(&format!("c04 iter seek {}", hex(&k)), &res(&r));
+						if cursor_ok {
+							c.t.op(&format!("c04b cursor seek {}", hex(&k)), &res(&r));
+						}
+						cursor_synced = cursor_ok;
 						pos = Pos::Seek(k);
 						last_since_reset = false;
 						last_call = "seek";
@@ -865,6 +1154,10 @@ fn run_case(seed: u64, thorough: bool, root: &Path, t: &mut Trace, ctr: &mut Cou
 					} else if kind < 19 {
 						let r = it.seek_to_first();
 						c.t.op("c04 iter first", &res(&r));
+						if cursor_ok {
+							c.t.op("c04b cursor first", &res(&r));
+						}
+						cursor_synced = cursor_ok;
 						pos = Pos::Seek(vec![]);
 						last_since_reset = false;
 						last_call = "first";
@@ -873,6 +1166,10 @@ fn run_case(seed: u64, thorough: bool, root: &Path, t: &mut Trace, ctr: &mut Cou
 					} else if kind < 27 {
 						let r = it.seek_to_last();
 						c.t.op("c04 iter last", &res(&r));
+						if cursor_ok {
+							c.t.op("c04b cursor last", &res(&r));
+						}
+						cursor_synced = cursor_ok;
 						pos = Pos::End;
 						last_since_reset = true;
 						last_call = "last";
@@ -899,6 +1196,14 @@ fn run_case(seed: u64, thorough: bool, root: &Path, t: &mut Trace, ctr: &mut Cou
 						};
 						let obs = show_item(&got, &vals);
 						c.t.op(&format!("c04 iter {}", name), &obs);
+						if cursor_ok && cursor_synced {
+							// the literal stack cursor over the dumped real tree must yield the same key
+							c.t.op(&format!("c04b cursor {}", name), &key_only(&got));
+							c.ctr.inc("cursor.step");
+						} else {
+							cursor_synced = false;
+							c.ctr.inc("cursor.step_skipped");
+						}
 						c.ctr.inc(&format!("call.{}", name));
 						c.ctr.inc(&format!("pos.{}.{}", pos.name(), name));
 						if commits_since_call > 0 {
@@ -933,7 +1238,49 @@ fn run_case(seed: u64, thorough: bool, root: &Path, t: &mut Trace, ctr: &mut Cou
 										c.ctr.inc(&format!("ans.layer.{}", layer));
 									},
 								}
-								if *g != exp {
+								let exact = !rc || pending.is_empty();
+								let good = if exact {
+									*g == exp
+								} else {
+									// rc column with queued commits (the commit overlay does not mirror
+									// dereferences): every live key must be shown, nothing that was never
+									// visible may be shown, the value is the preimage
+									c.ctr.inc("rc.call_with_queue");
+									match g {
+										None => exp.is_none(),
+										Some((k, v)) => {
+											let pos_ok = match (&pos, fwd) {
+												(Pos::Start, true) | (Pos::End, false) => true,
+												(Pos::Seek(s), true) => k >= s,
+												(Pos::Seek(s), false) => k <= s,
+												(Pos::After(s), true) => k > s,
+												(Pos::After(s), false) => k < s,
+												_ => false,
+											};
+											let upper = committed.contains_key(k) ||
+												processed.contains_key(k) ||
+												pending.iter().any(|tx| {
+													tx.iter().any(|op| matches!(op, Op::Set(k2, _) if k2 == k))
+												});
+											let pre = rc_value(k, &mut vals);
+											let value_ok = *v == vals.bytes(&pre);
+											let no_skip = match &exp {
+												None => true,
+												Some((lk, _)) =>
+													if fwd {
+														lk >= k
+													} else {
+														lk <= k
+													},
+											};
+											if !committed.contains_key(k) {
+												c.ctr.inc("rc.lag_visible");
+											}
+											pos_ok && upper && value_ok && no_skip
+										},
+									}
+								};
+								if !good {
 									let shape = if last_call == "last" {
 										"F5a(step after seek_to_last, pending item kept)"
 									} else if pos == Pos::Start && !fwd {
@@ -946,7 +1293,7 @@ fn run_case(seed: u64, thorough: bool, root: &Path, t: &mut Trace, ctr: &mut Cou
 										"other"
 									};
 									c.fail(&format!(
-										"iter {} at pos={} after {}: expected={} observed={} shape={} stages: queued={} logged={} enacted={}",
+										"iter {} at pos={} after {}: expected={} observed={} shape={} stages: queued={} logged={} enacted={} rc={}",
 										name,
 										pos.show(),
 										last_call,
@@ -961,7 +1308,8 @@ fn run_case(seed: u64, thorough: bool, root: &Path, t: &mut Trace, ctr: &mut Cou
 										shape,
 										st.queued,
 										st.logged,
-										st.n_enacted
+										st.n_enacted,
+										rc
 									));
 									c.ctr.inc("iter.mismatch");
 								}
@@ -996,46 +1344,29 @@ fn run_case(seed: u64, thorough: bool, root: &Path, t: &mut Trace, ctr: &mut Cou
 			st.queued -= 1;
 			st.logged += 1;
 			st.n_processed += 1;
-			let done = pending.pop_front().unwrap();
-			c.t.op(&ops_line("c04b apply", &done), "ok");
-			c.ctr.inc("c04b.apply");
-			for op in done {
-				match op {
-					Op::Set(k, v) => {
-						processed.insert(k, vals.bytes(&v));
-					},
-					Op::Del(k) => {
-						processed.remove(&k);
-					},
-				}
-			}
+			note_processed!(pending.pop_front().unwrap());
 		}
 		if processed != committed {
 			c.fail("harness: processed state differs from committed state after draining the queue");
 		}
-		match parity_db::verif::btree_dump(&db, 0) {
-			Ok(d) => {
-				let (line, problems, depth) = check_dump(&d, &processed);
-				c.t.op("c04b tree", &exact_line(&d));
-				c.t.op("c04b same", "yes");
-				c.ctr.inc("c04b.tree_exact");
-				for p in problems {
-					c.fail(&format!("TreeInv: {}", p));
-				}
-				c.t.op("c04 tree", &line);
-				t2_tree_emit(&d, c.t, c.ctr);
-				max_depth = std::cmp::max(max_depth, depth);
-			},
-			Err(e) => c.fail(&format!("tree dump failed: {:?}", e)),
-		}
+		let (depth, loaded) = dump_check(&db, &mut c, &processed, rc, "", true);
+		cursor_ok = loaded;
+		max_depth = std::cmp::max(max_depth, depth);
 		// full forward scan with the open iterator, full backward scan
 		let r = it.seek_to_first();
 		c.t.op("c04 iter first", &res(&r));
+		if cursor_ok {
+			c.t.op("c04b cursor first", &res(&r));
+		}
 		let mut n = 0;
 		let mut expit = committed.iter();
 		loop {
 			let got = it.next();
 			c.t.op("c04 iter next", &show_item(&got, &vals));
+			if cursor_ok {
+				c.t.op("c04b cursor next", &key_only(&got));
+				c.ctr.inc("cursor.step");
+			}
 			let e = expit.next().map(|(k, v)| (k.clone(), v.clone()));
 			match got {
 				Ok(g) => {
@@ -1056,11 +1387,18 @@ fn run_case(seed: u64, thorough: bool, root: &Path, t: &mut Trace, ctr: &mut Cou
 		}
 		let r = it.seek_to_last();
 		c.t.op("c04 iter last", &res(&r));
+		if cursor_ok {
+			c.t.op("c04b cursor last", &res(&r));
+		}
 		let mut expit = committed.iter().rev();
 		n = 0;
 		loop {
 			let got = it.prev();
 			c.t.op("c04 iter prev", &show_item(&got, &vals));
+			if cursor_ok {
+				c.t.op("c04b cursor prev", &key_only(&got));
+				c.ctr.inc("cursor.step");
+			}
 			let e = expit.next().map(|(k, v)| (k.clone(), v.clone()));
 			match got {
 				Ok(g) => {
@@ -1081,46 +1419,25 @@ fn run_case(seed: u64, thorough: bool, root: &Path, t: &mut Trace, ctr: &mut Cou
 		}
 		c.ctr.add("scan.elements", committed.len() as u64);
 		drop(it);
-		// leave no more than the dirty-log limit behind (F7 guard), then close
-		let _ = db.flush_logs();
-		let mut guard = 0;
-		loop {
-			let _ = db.clean_logs();
-			if db.enact_logs().is_err() {
-				break
-			}
-			guard += 1;
-			if guard > (st.unread_files + 4) {
-				break
-			}
-		}
-		let _ = db.clean_logs();
-		drop(db);
+		close_db(db, st.unread_files);
 	}
 	// ---------------------------------------------------------------- reopen: from the files
 	match Db::open(&opts) {
 		Ok(db) => {
-			match parity_db::verif::btree_dump(&db, 0) {
-				Ok(d) => {
-					let (line, problems, _) = check_dump(&d, &committed);
-					c.t.op("c04b tree", &exact_line(&d));
-					c.ctr.inc("c04b.tree_exact");
-					for p in problems {
-						c.fail(&format!("TreeInv after reopen: {}", p));
-					}
-					c.t.op("c04 tree", &line);
-					t2_tree_emit(&d, c.t, c.ctr);
-				},
-				Err(e) => c.fail(&format!("tree dump after reopen failed: {:?}", e)),
-			}
+			c.t.op("c04 reopen", "ok");
+			let (_, cursor_ok) = dump_check(&db, &mut c, &committed, rc, " after reopen", false);
 			let mut it = db.iter(0).expect("iter");
-			c.t.op("c04 iter new", "ok");
 			let mut expit = committed.iter();
 			let mut n = 0;
 			loop {
 				let got = it.next();
+				// the model answers from its reopened state; the cursor model from the dump
+				c.t.op("c04 iter next", &show_item(&got, &vals));
+				if cursor_ok {
+					c.t.op("c04b cursor next", &key_only(&got));
+					c.ctr.inc("cursor.step");
+				}
 				let e = expit.next().map(|(k, v)| (k.clone(), v.clone()));
-				// not sent to the model: same content as the scan before the reopen
 				match got {
 					Ok(g) => {
 						if g != e {
@@ -1141,6 +1458,12 @@ fn run_case(seed: u64, thorough: bool, root: &Path, t: &mut Trace, ctr: &mut Cou
 			for _ in 0..4 {
 				let k = rng.pick(&pool).clone();
 				let got = db.get(0, &k);
+				let obs = match &got {
+					Ok(Some(v)) => format!("some {}", vals.render(v)),
+					Ok(None) => "none".into(),
+					Err(e) => format!("err:{}", err_kind(e)),
+				};
+				c.t.op(&format!("c04 get {}", hex(&k)), &obs);
 				if got.as_ref().ok() != Some(&committed.get(&k).cloned()) {
 					c.fail(&format!("get after reopen key={}", short(&k)));
 				}
@@ -1153,6 +1476,9 @@ fn run_case(seed: u64, thorough: bool, root: &Path, t: &mut Trace, ctr: &mut Cou
 	let _ = std::fs::remove_dir_all(&dir);
 	c.ctr.inc(&format!("case.maxdepth.{}", max_depth));
 	c.ctr.inc("cases");
+	if reopened_mid {
+		c.ctr.inc("cases.reopened_mid");
+	}
 	let nontrivial = layers_seen.len() >= 2 || max_depth >= 1;
 	if nontrivial {
 		c.ctr.inc("cases.nontrivial");
